@@ -9,6 +9,7 @@ from engine.model import src, stmt_key, walk_no_nested, dotted, AnalysisError
 from engine.util import own_nodes, calls_with_nodes, where
 
 RULES = {
+    "R-10.11": "the SOA-only-at-the-origin test of Transaction._add accepts the origin in either spelling, like every other owner name: the refusal compares the name with BOTH names _origin_information() returns (the absolute origin and the effective one)",
     "R-10.10": "merging an rdataset into a stored one goes through Rdataset.add, where the singleton rule (CNAME, SOA, ...), the foreign-record refusal and the TTL minimum live (C07 R-07.7 adopted)",
     "R-10.9": "rdatasets are addressed by the full (rdclass, rdtype, covers) key wherever a zone, version, node or transaction call passes the type on; and the optional rdataset of delete()/delete_exact() is tested for presence by identity (an empty rdataset deletes nothing, it does not select the whole name)",
     "R-10.8": "what a transaction stores at a node obeys the node-level CNAME exclusivity filter (C09 R-09.3 node-filter adopted): CNAME-kind data evicts exactly the REGULAR rdatasets and vice versa",
@@ -373,6 +374,19 @@ def run(model, rep, tier):
     optional_results_by_identity(model, rep, "R-10.9", {"dns.transaction"}, "the caller gave no rdataset/rdata arguments",
                                  "delete(name, <empty rdataset>) falls into the delete-the-whole-name arm and removes every rdataset at the name", 1)
     key_triple_forwarded(model, rep, "R-10.9", {"dns.node", "dns.zone", "dns.transaction", "dns.btreezone", "dns.versioned", "dns.xfr", "dns.zonefile"}, 15)
+    # ---------------------------------------------------------------- R-10.11
+    ta11 = model.func("dns.transaction.Transaction._add")
+    unp = [n for n in ast.walk(ta11.node) if isinstance(n, ast.Assign) and isinstance(n.targets[0], ast.Tuple) and isinstance(n.value, ast.Call) and src(n.value.func) == "self._origin_information"]
+    soa_if = [n for n in ast.walk(ta11.node) if isinstance(n, ast.If) and any(isinstance(b, ast.Raise) for b in n.body) and any(a[0] == "name" and a[1] == "!=" for a in atoms(normalise_compare(n.test)))]
+    if len(unp) != 1 or len(soa_if) != 1 or len(unp[0].targets[0].elts) != 3:
+        rep.blind("R-10.11", ta11.qualname, where(ta11, ta11.node), "the SOA origin test (`_origin_information()` unpacking and the raising `name != ...` test) was not found", stmt="soa-origin-spelling")
+    else:
+        elts = [src(e) for e in unp[0].targets[0].elts]
+        compared = {a[2] for a in atoms(normalise_compare(soa_if[0].test)) if a[0] == "name" and a[1] == "!="} | {a[0] for a in atoms(normalise_compare(soa_if[0].test)) if a[2] == "name" and a[1] == "!="}
+        rep.check(elts[0] in compared and elts[2] in compared and normalise_compare(soa_if[0].test)[0] in ("and", "atom"), "R-10.11", ta11.qualname, where(ta11, soa_if[0]),
+                  "an SOA is refused only when its owner is neither the absolute nor the effective origin",
+                  f"the SOA test compares the owner name only with {sorted(compared)} of ({', '.join(elts)}) = _origin_information(): the origin given in the other spelling (absolute on a relativized zone, "
+                  "the default empty name of update_serial() on an absolute zone) is refused with 'non-origin SOA' although every other record accepts both spellings", stmt="soa-origin-spelling")
     rep.meta["explanation"] = (
         "Typestate (dominance of _check_ended/_check_read_only before hook-reaching calls, with self-call summaries), sanitiser-before-sink "
         "taint analysis of map keys with reaching definitions, ownership of mutated nodes, and CFG shape rules for the exits. "
@@ -550,6 +564,8 @@ def _for_node_kinds(model, f, cfg, rd, d) -> set:
 
 
 WITNESSES = [
+    {"id": "c10-soa-test-one-spelling", "rule": "R-10.11", "file": "dns/transaction.py", "expect": "fires",
+     "old": "                    name != origin\n                    and name != absolute_origin\n                    and name != dns.name.empty\n", "new": "                    name != origin\n"},
     {"id": "c10-delete-optional-rdataset-truth-tested", "rule": "R-10.9", "file": "dns/transaction.py", "expect": "fires",
      "old": "            if rdataset is not None:\n                if rdataset.rdclass != self.manager.get_class():", "new": "            if rdataset:\n                if rdataset.rdclass != self.manager.get_class():"},
     {"id": "c10-replace-rdataset-drops-covers", "rule": "R-10.9", "file": "dns/node.py", "expect": "fires",
